@@ -921,19 +921,21 @@ def dead_at_start(case):
     return bool(case.get("die_before_output", False)) or not case.get("schedule")
 
 
-def model_request(case, mi, fx=1, fix2=1, fix3=1, fix14=1):
+def model_request(case, mi, fx=1, fix2=1, fix3=1, fix14=1, strict=1):
+    """Request line for the extracted model.  `code` is the SIGNED return code (return_code),
+    `strict` the failure test applied to it (PollM.exit_failed: 1 = `!= 0`, the code of /repo)."""
     eng = case["engine"]
     head = f"{mi['rv']} {mi['left']} {mi['right']} {case['maxlen']}"
     traj, ordt = enc_list(mi["traj"]), enc_list(mi["ord"])
     code = return_code(case)
     dead = int(dead_at_start(case))
     if eng == "lammps":
-        return f"lammps {fx} {fix2} {head} {code} {dead} {traj} {ordt} {enc_list(visible_reads(case))}"
+        return f"lammps {fx} {fix2} {head} {code} {strict} {dead} {traj} {ordt} {enc_list(visible_reads(case))}"
     if eng == "cp2k":
-        return f"cp2k {fx} {head} {code} {dead} 0 {traj} {ordt} {enc_list(visible_reads(case))}"
+        return f"cp2k {fx} {head} {code} {strict} {dead} 0 {traj} {ordt} {enc_list(visible_reads(case))}"
     if eng == "gromacs":
         hsz, dsz, head0, fin, eps = gmx_epochs(case)
-        return (f"gromacs {fx} {fix3} {fix14} {head} {code} {dead} {hsz} {dsz} {head0} {fin} {traj} {ordt} "
+        return (f"gromacs {fx} {fix3} {fix14} {head} {code} {strict} {dead} {hsz} {dsz} {head0} {fin} {traj} {ordt} "
                 f"{enc_list([str(x) for x in eps])}")
     raise ValueError(eng)
 
